@@ -535,6 +535,11 @@ fn handmade(idx: u64) -> Option<Case> {
         32 => c(app(v("f", 1), h(0, 0)), app(v("f", 1), lam(app(E::Hole(50, 1, Some(bx(v("c", 0)))), v("x", 0)))), vec![hi(0, 0)], 2, "solved-hole-under-binder-in-instance"),
         33 => c(lam(h(0, 1)), lam(lam(E::Hole(50, 1, Some(bx(lam(v("c", 2))))))), vec![hi(0, 0)], 1, "solved-hole-under-binder-in-instance"),
         34 => c(E::Pi("y".into(), false, bx(E::Int), bx(E::Hole(50, 1, Some(bx(v("a", 0)))))), h(0, 0), vec![hi(0, 0)], 1, "solved-hole-under-binder-in-instance"),
+        // implicit against explicit binders: never equal, with or without holes around
+        35 => c(E::Pi("a".into(), true, bx(E::Type), bx(app(v("f", 1), v("a", 0)))), E::Pi("a".into(), false, bx(E::Type), bx(app(v("f", 1), v("a", 0)))), vec![], 1, "implicit-vs-explicit"),
+        36 => c(E::Pi("a".into(), true, bx(E::Type), bx(h(0, 1))), E::Pi("a".into(), false, bx(E::Type), bx(v("c", 1))), vec![hi(0, 0)], 1, "implicit-vs-explicit"),
+        37 => c(E::Lam("x".into(), true, bx(E::Int), bx(h(0, 1))), E::Lam("x".into(), false, bx(E::Int), bx(E::Lit(3.into()))), vec![hi(0, 0)], 0, "implicit-vs-explicit"),
+        38 => c(app(v("g", 0), E::Pi("a".into(), false, bx(h(0, 0)), bx(E::Int))), app(v("g", 0), E::Pi("a".into(), true, bx(E::Int), bx(E::Int))), vec![hi(0, 0)], 1, "implicit-vs-explicit"),
         _ => None,
     }
 }
@@ -545,7 +550,7 @@ impl Prop for C12P {
     }
     fn plan(&self, tier: Tier, _seed: u64) -> Plan {
         let mut p = Plan::new(
-            vec![sec("handmade-configurations", 35), sec("punched-terms", tier.pick(40_000, 400_000)), sec("unrelated-pairs", tier.pick(8_000, 80_000))],
+            vec![sec("handmade-configurations", 39), sec("punched-terms", tier.pick(40_000, 400_000)), sec("unrelated-pairs", tier.pick(8_000, 80_000))],
             "1-4 holes (fresh or shared cells, shift 0..3 bounded by the binder depth) punched at arbitrary positions into hole-free well-typed terms from the typed generator, unified against the original, a beta-expanded and a definition-wrapped variant, in both argument orders; pairs of unrelated terms and of a term with a structurally edited copy of itself; hole-free parts behind already solved holes; hand-made occurs-check, scope-escape and shared-cell configurations with and without context parameters; after every successful call the cells are inspected for cycles, scope and consistency; non-trivial = distinct pair on which unify succeeded",
         );
         p.assumptions = vec![
@@ -625,7 +630,7 @@ impl Prop for C12P {
 pub fn miri_cases(ctx: &mut Ctx, seed: u64, shard: u64, nshards: u64, count: u64) -> u64 {
     for i in 0..count {
         let idx = shard + i * nshards;
-        if let Some(c) = handmade(idx % 35) {
+        if let Some(c) = handmade(idx % 39) {
             run_case_inner(ctx, &c);
         }
         let mut r = Rng::for_case(seed, 79, idx);
